@@ -180,6 +180,7 @@ theorem step_keeps_barred (P : Params) (cfg : List Key) (s : Sys) (e : Ev) (m : 
   cases e with
   | tick dt => exact hb
   | restart => exact hb
+  | boot => exact hb
   | damage dm =>
     cases dm with
     | tomb => exact Or.inl rfl
@@ -357,15 +358,37 @@ theorem unreadable_store_fail_closed (P : Params) (cfg : List Key) (d : Disk) (l
 def anchors (P : Params) (cfg : List Key) (d : Disk) (live : List Key) (fl : Faults) (now : Nat) : List Key :=
   (autoTA P cfg d live none fl now).cand
 
-/-- **What acceptance requires.** If `verifyFetchedKeys` accepts a set, some
-anchor (a SEP key of the candidate set: Valid or Missing, never tombstoned)
-either validly signed it, or its REVOKE form — same material, only the REVOKE
-bit differs — is in the set and validly self-signed it. -/
+/-- **What acceptance requires: every RRset of the answer is covered.** If
+`verifyFetchedKeys` accepts an answer, then EVERY RRset in its answer section —
+the root's DNSKEY RRset and every other RRset, in particular a DNSKEY RRset
+under any other owner name, all of which `AutoTA` goes on to consume — carries
+an RRSIG that verifies under an `Anchoring` key: a SEP candidate anchor, or the
+REVOKE form (in the answer) of one. Nothing unsigned rides along. -/
 theorem accepted_needs_trusted_signature (cand : List Key) (f : Fetch)
     (h : verifyFetched cand f ≠ .none) :
-    ∃ c ∈ cand, c.sep = true ∧
-      (signedBy f.signers c = true ∨
-        ∃ k' ∈ f.keys, k'.revoke = true ∧ sameKeyExceptRevoke c k' = true ∧ signedBy f.signers k' = true) := by
+    (f.keys ≠ [] → ∃ k, Anchoring cand f k ∧ signedBy f.signers k = true) ∧
+    ∀ e ∈ f.extras, ∃ k, Anchoring cand f k ∧ signedBy e.signers k = true := by
+  have cur : ∀ k ∈ cand.filter (·.sep), Anchoring cand f k := by
+    intro k hk
+    obtain ⟨h1, h2⟩ := List.mem_filter.mp hk
+    exact Or.inl ⟨h1, h2⟩
+  have boot : ∀ k ∈ bootstrap (cand.filter (·.sep)) f, Anchoring cand f k := by
+    intro k hk
+    unfold bootstrap at hk
+    obtain ⟨hk1, hk2⟩ := List.mem_filter.mp hk
+    simp only [Bool.and_eq_true] at hk2
+    obtain ⟨c, hc, hcc⟩ := List.any_eq_true.mp hk2.2
+    simp only [Bool.and_eq_true] at hcc
+    obtain ⟨hc1, hc2⟩ := List.mem_filter.mp hc
+    exact Or.inr ⟨hk1, hk2.1, c, hc1, hc2, hcc.2⟩
+  have lift : ∀ ks : List Key, (∀ k ∈ ks, Anchoring cand f k) → coveredBy f ks = true →
+      (f.keys ≠ [] → ∃ k, Anchoring cand f k ∧ signedBy f.signers k = true) ∧
+      ∀ e ∈ f.extras, ∃ k, Anchoring cand f k ∧ signedBy e.signers k = true := by
+    intro ks hks hcov
+    obtain ⟨h1, h2⟩ := coveredBy_spec f ks hcov
+    refine ⟨fun hne => ?_, fun e he => ?_⟩
+    · obtain ⟨k, hk, hs⟩ := h1 hne; exact ⟨k, hks k hk, hs⟩
+    · obtain ⟨k, hk, hs⟩ := h2 e he; exact ⟨k, hks k hk, hs⟩
   unfold verifyFetched at h
   split at h
   · exact absurd rfl h
@@ -373,21 +396,28 @@ theorem accepted_needs_trusted_signature (cand : List Key) (f : Fetch)
     split at h
     · exact absurd rfl h
     · split at h
-      · next hany =>
-        obtain ⟨c, hc, hs⟩ := List.any_eq_true.mp hany
-        obtain ⟨hc1, hc2⟩ := List.mem_filter.mp hc
-        exact ⟨c, hc1, hc2, Or.inl hs⟩
+      · next hcov => exact lift _ cur hcov
       · split at h
-        · next hany =>
-          obtain ⟨k', hk', hs⟩ := List.any_eq_true.mp hany
-          unfold bootstrap at hk'
-          obtain ⟨hk1, hk2⟩ := List.mem_filter.mp hk'
-          simp only [Bool.and_eq_true] at hk2
-          obtain ⟨c, hc, hcc⟩ := List.any_eq_true.mp hk2.2
-          simp only [Bool.and_eq_true] at hcc
-          obtain ⟨hc1, hc2⟩ := List.mem_filter.mp hc
-          exact ⟨c, hc1, hc2, Or.inr ⟨k', hk1, hk2.1, hcc.2, hs⟩⟩
+        · next hcov =>
+          simp only [Bool.and_eq_true] at hcov
+          exact lift _ boot hcov.2
         · exact absurd rfl h
+
+/-- **Every DNSKEY the run consumes was covered.** `AutoTA` builds `kskFetched`
+from every DNSKEY of the answer section, whatever its owner name (`Fetch.all`);
+if the answer was accepted, each of them lies in an RRset validly signed by an
+`Anchoring` key — an unsigned key under another owner name cannot ride along
+with a genuinely signed root DNSKEY RRset. -/
+theorem consumed_key_is_covered (cand : List Key) (f : Fetch)
+    (h : verifyFetched cand f ≠ .none) (k : Key) (hk : k ∈ f.all) :
+    (k ∈ f.keys ∧ ∃ a, Anchoring cand f a ∧ signedBy f.signers a = true) ∨
+    (∃ e ∈ f.extras, k ∈ e.keys ∧ ∃ a, Anchoring cand f a ∧ signedBy e.signers a = true) := by
+  obtain ⟨h1, h2⟩ := accepted_needs_trusted_signature cand f h
+  unfold Fetch.all at hk
+  rcases List.mem_append.mp hk with hk1 | hk1
+  · exact Or.inl ⟨hk1, h1 (by intro he; rw [he] at hk1; cases hk1)⟩
+  · obtain ⟨e, he, hke⟩ := List.mem_flatMap.mp hk1
+    exact Or.inr ⟨e, he, hke, h2 e he⟩
 
 /-- **unauthenticated_changes_nothing.** A DNSKEY response that no trusted key
 authenticates (and likewise a failed query) has exactly the effect of no
@@ -449,15 +479,15 @@ theorem revocation_only_restricted (P : Params) (cfg : List Key) (d : Disk) (liv
     simp only
     -- the loop result (the hold-down loop is skipped)
     have hl : process P f (Auth.revOnly == Auth.revOnly) now cur tomb =
-        (sortByTag (fetchedMap f.keys)).foldl
-          (procFetched (stage cur tomb f.signers (sortByTag (fetchedMap f.keys))) true now)
+        (sortByTag (fetchedMap f.all)).foldl
+          (procFetched (stage cur tomb f (sortByTag (fetchedMap f.all))) true now)
           { cur := cur, tomb := tomb } := by
       unfold process; simp
     rw [hl]
-    generalize hst : stage cur tomb f.signers (sortByTag (fetchedMap f.keys)) = staged
-    have hspec : ∀ k, staged.contains k = true → k ∈ f.keys ∧ signedBy f.signers k = true := by
+    generalize hst : stage cur tomb f (sortByTag (fetchedMap f.all)) = staged
+    have hspec : ∀ k, staged.contains k = true → k ∈ f.all ∧ selfSigned f k = true := by
       intro k hk; rw [← hst] at hk; exact staged_spec cur tomb f k hk
-    generalize hfin : (sortByTag (fetchedMap f.keys)).foldl (procFetched staged true now)
+    generalize hfin : (sortByTag (fetchedMap f.all)).foldl (procFetched staged true now)
       { cur := cur, tomb := tomb } = l
     -- (3) entries
     have h3 : ∀ ta ∈ l.cur, ta ∈ cur ∨ (ta.st = .revoked ∧ ∃ old ∈ cur,
@@ -474,7 +504,7 @@ theorem revocation_only_restricted (P : Params) (cfg : List Key) (d : Disk) (liv
     -- forward: an anchor stays as it is unless its own revocation is in the set
     have hfwd : ∀ ta ∈ cur, ta ∈ l.cur ∨ RevocationOf f ta.key := by
       intro ta hta
-      have := foldl_procFetched_fwd staged true now (sortByTag (fetchedMap f.keys))
+      have := foldl_procFetched_fwd staged true now (sortByTag (fetchedMap f.all))
         { cur := cur, tomb := tomb } ta hta
       rw [hfin] at this
       rcases this with h1 | ⟨k, _, hr, hc, hs, _⟩
@@ -544,7 +574,7 @@ theorem missing_keeps_trust_90d_and_returns (P : Params) (cfg : List Key) (d : D
     (f : Fetch) (fl : Faults) (now : Nat) (ta : TA)
     (hfull : (autoTA P cfg d live (some f) fl now).auth = .full)
     (hta : ta ∈ (autoTA P cfg d live none fl now).curFinal) (htr : isTrusted ta.st = true)
-    (hnorev : ∀ k' ∈ f.keys, k'.revoke = true → sameKeyExceptRevoke ta.key k' = false)
+    (hnorev : ∀ k' ∈ f.all, k'.revoke = true → sameKeyExceptRevoke ta.key k' = false)
     (hwin : ta.st = .missing → ta.key.tag ∉ fetchedTags f → now - ta.firstSeen ≤ P.remHold)
     (hw : ¬(fl.tombWrite = true ∧ fl.stateWrite = true)) :
     ta.key ∈ (autoTA P cfg d live (some f) fl now).live ∧
@@ -566,20 +596,20 @@ theorem missing_keeps_trust_90d_and_returns (P : Params) (cfg : List Key) (d : D
     simp only at hta ⊢
     -- the entry survives the fetched-key loop untouched
     have hproc : process P f (Auth.full == Auth.revOnly) now cur tomb =
-        { ((sortByTag (fetchedMap f.keys)).foldl
-            (procFetched (stage cur tomb f.signers (sortByTag (fetchedMap f.keys))) false now)
+        { ((sortByTag (fetchedMap f.all)).foldl
+            (procFetched (stage cur tomb f (sortByTag (fetchedMap f.all))) false now)
             { cur := cur, tomb := tomb }) with
           cur := holdDown P (fetchedTags f) now
-            ((sortByTag (fetchedMap f.keys)).foldl
-              (procFetched (stage cur tomb f.signers (sortByTag (fetchedMap f.keys))) false now)
+            ((sortByTag (fetchedMap f.all)).foldl
+              (procFetched (stage cur tomb f (sortByTag (fetchedMap f.all))) false now)
               { cur := cur, tomb := tomb }).cur } := by
       have hb : (Auth.full == Auth.revOnly) = false := by decide
       rw [hb]
       unfold process fetchedTags; simp
-    have hfwd := foldl_procFetched_fwd (stage cur tomb f.signers (sortByTag (fetchedMap f.keys))) false now
-      (sortByTag (fetchedMap f.keys)) { cur := cur, tomb := tomb } ta hta
-    generalize (sortByTag (fetchedMap f.keys)).foldl
-      (procFetched (stage cur tomb f.signers (sortByTag (fetchedMap f.keys))) false now)
+    have hfwd := foldl_procFetched_fwd (stage cur tomb f (sortByTag (fetchedMap f.all))) false now
+      (sortByTag (fetchedMap f.all)) { cur := cur, tomb := tomb } ta hta
+    generalize (sortByTag (fetchedMap f.all)).foldl
+      (procFetched (stage cur tomb f (sortByTag (fetchedMap f.all))) false now)
       { cur := cur, tomb := tomb } = l0 at hproc hfwd
     have hin : ta ∈ l0.cur := by
       rcases hfwd with h1 | ⟨k, hk, hr, _, hs, _⟩
@@ -614,6 +644,112 @@ theorem missing_keeps_trust_90d_and_returns (P : Params) (cfg : List Key) (d : D
     · intro hv hm
       exact ⟨ta', hin', hs2, hs5 hv hm⟩
 
+/-! ## what validation does with the live set; the pre-fetch publication -/
+
+/-- **validation_fails_closed.** With an empty (cleared) trust set nothing
+validates: `verifyRootKeys` refuses (`ErrTrustAnchorsUnavailable`), the lookup
+fails — it is never answered unvalidated. -/
+theorem validation_fails_closed (f : Fetch) : validates [] f = false := by
+  simp [validates]
+
+/-- **validation_needs_live_signature.** A root DNSKEY response validates only
+if every RRset of its answer section is validly signed by a key of the live
+trust set (a non-revoked KSK, `Flags == 257`). -/
+theorem validation_needs_live_signature (live : List Key) (f : Fetch) (h : validates live f = true) :
+    (f.keys ≠ [] → ∃ k ∈ live, k.revoke = false ∧ signedBy f.signers k = true) ∧
+    ∀ e ∈ f.extras, ∃ k ∈ live, k.revoke = false ∧ signedBy e.signers k = true := by
+  unfold validates at h
+  simp only [Bool.and_eq_true] at h
+  obtain ⟨h1, h2⟩ := coveredBy_spec f _ h.2
+  have up : ∀ k ∈ live.filter (fun k => k.sep && !k.revoke && k.other == 256), k ∈ live ∧ k.revoke = false := by
+    intro k hk
+    obtain ⟨ha, hb⟩ := List.mem_filter.mp hk
+    simp only [Bool.and_eq_true, Bool.not_eq_eq_eq_not, Bool.not_true] at hb
+    exact ⟨ha, hb.1.2⟩
+  refine ⟨fun hne => ?_, fun e he => ?_⟩
+  · obtain ⟨k, hk, hs⟩ := h1 hne; exact ⟨k, (up k hk).1, (up k hk).2, hs⟩
+  · obtain ⟨k, hk, hs⟩ := h2 e he; exact ⟨k, (up k hk).1, (up k hk).2, hs⟩
+
+/-- **A revoked key never validates anything again.** Once the revocation of
+material `m` is on record, after every later completed refresh (any history
+allowed by `HistOK`) a root DNSKEY response validates only through a live key
+of OTHER material: a signature by the revoked key (or any key of its material)
+alone is worthless, restarts and stale configuration notwithstanding. -/
+theorem revoked_key_never_validates (P : Params) (cfg : List Key) (s : Sys) (evs : List Ev)
+    (f : Option Fetch) (fl : Faults) (m : Nat)
+    (hb : Barred s.disk m) (hok : HistOK P cfg s (evs ++ [.run f fl none]))
+    (live : List Key) (hl : (runHist P cfg s (evs ++ [.run f fl none])).proc = some live)
+    (g : Fetch) (hv : validates live g = true) (hne : g.keys ≠ []) :
+    ∃ k ∈ live, k.mat ≠ m ∧ signedBy g.signers k = true := by
+  obtain ⟨k, hk, _, hs⟩ := (validation_needs_live_signature live g hv).1 hne
+  exact ⟨k, hk, tombstone_permanent_partial P cfg s evs f fl m hb hok live hl k hk, hs⟩
+
+/-- **The trust set while the DNSKEY query is in flight.** The pre-fetch
+publication — what validation trusts during the fetch and what stays if the
+fetch fails — is the tombstone-filtered candidate set when the process had a
+non-empty trust set, and stays EMPTY when it was in fail-closed mode
+(`priorTrustValid`): a cleared trust set is not refilled from disk before a
+write has succeeded. -/
+theorem prefetch_publication (P : Params) (cfg : List Key) (d : Disk) (live : List Key)
+    (f : Option Fetch) (fl : Faults) (now : Nat) (pre : List Key)
+    (h : (autoTA P cfg d live f fl now).pre = some pre) :
+    (live = [] → pre = []) ∧ (live ≠ [] → pre = (autoTA P cfg d live none fl now).cand) := by
+  cases hrt : readTomb d fl with
+  | corrupt =>
+    have : (autoTA P cfg d live f fl now).pre = none := by unfold autoTA; simp [hrt]
+    rw [this] at h; cases h
+  | ok tomb0 =>
+    have hpre : (autoTA P cfg d live f fl now).pre =
+        some (if !live.isEmpty then candidate (prepare cfg (readState d live fl now) tomb0 now).1 else live) := by
+      rcases autoTA_inv P cfg d live f fl now with ⟨_, _, _, _⟩ | ⟨t0, f', a, hrt', _, _, _, heq⟩
+      · unfold autoTA
+        simp only [hrt]
+        generalize prepare cfg (readState d live fl now) tomb0 now = pr
+        obtain ⟨cur, tomb⟩ := pr
+        cases f with
+        | none => rfl
+        | some f' =>
+          simp only
+          cases verifyFetched (candidate cur) f' <;> rfl
+      · rw [hrt] at hrt'
+        cases hrt'
+        rw [heq]; rfl
+    rw [hpre] at h
+    simp only [Option.some.injEq] at h
+    rw [autoTA_none P cfg d live fl now tomb0 hrt]
+    simp only
+    subst h
+    constructor
+    · intro hl; subst hl; simp
+    · intro hl
+      cases live with
+      | nil => exact absurd rfl hl
+      | cons a b => simp
+
+/-- ... and it never contains a key whose revocation is on record. -/
+theorem prefetch_excludes_barred (P : Params) (cfg : List Key) (d : Disk) (live : List Key)
+    (f : Option Fetch) (fl : Faults) (now m : Nat) (pre : List Key)
+    (hb : Barred d m) (hs : fl.stateRead = true → MarkersCovered d)
+    (h : (autoTA P cfg d live f fl now).pre = some pre) : ∀ k ∈ pre, k.mat ≠ m := by
+  obtain ⟨h1, h2⟩ := prefetch_publication P cfg d live f fl now pre h
+  by_cases hl : live = []
+  · rw [h1 hl]; intro k hk; cases hk
+  · rw [h2 hl]
+    -- the candidate set is what a run without any response publishes
+    have hrun := run_excludes_barred P cfg d live none fl now m hb hs
+    cases hrt : readTomb d fl with
+    | corrupt =>
+      have : (autoTA P cfg d live none fl now).cand = [] := by unfold autoTA; simp [hrt]
+      rw [this]; intro k hk; cases hk
+    | ok tomb0 =>
+      rw [autoTA_none P cfg d live fl now tomb0 hrt] at hrun ⊢
+      simp only at hrun ⊢
+      have : (!live.isEmpty) = true := by
+        cases live with
+        | nil => exact absurd rfl hl
+        | cons a b => rfl
+      simpa [this] using hrun
+
 /-! ## the add hold-down over histories -/
 
 /-- the invariant is preserved by every event (given no pending-tag collision). -/
@@ -624,6 +760,12 @@ theorem step_holdInv (P : Params) (hP : thirtyDays ≤ P.addHold) (cfg : List Ke
   | tick dt =>
     exact ⟨hinv.disk, hinv.live, fun k t0 h => by have := hinv.clock k t0 h; simp [step]; omega⟩
   | restart => exact ⟨hinv.disk, (by intro l h; cases h), hinv.clock⟩
+  | boot =>
+    refine ⟨hinv.disk, ?_, hinv.clock⟩
+    intro l hl k hk
+    simp only [step, Option.some.injEq] at hl
+    subst hl
+    exact Or.inl hk
   | damage dm =>
     cases dm with
     | tomb => exact ⟨hinv.disk, hinv.live, hinv.clock⟩
@@ -712,12 +854,12 @@ theorem step_holdInv (P : Params) (hP : thirtyDays ≤ P.addHold) (cfg : List Ke
           simp [ghostStep, hauth]
         rw [hg]
         have hnc' : ∀ ta ∈ cur, EntryOK cfg g ta ∧
-            (ta.st = .addPend → ta.key.tag ∈ fetchedTags f' → ta.key ∈ f'.keys) := by
+            (ta.st = .addPend → ta.key.tag ∈ fetchedTags f' → ta.key ∈ f'.all) := by
           intro ta hta
           obtain ⟨h1, h2⟩ := hprep ta hta
           refine ⟨h1, fun hst htag => ?_⟩
           obtain ⟨tas, htas, hin⟩ := h2 hst
-          obtain ⟨q, hq1, hq2, hq3⟩ := fetchedTag_origin f'.keys ta.key.tag htag
+          obtain ⟨q, hq1, hq2, hq3⟩ := fetchedTag_origin f'.all ta.key.tag htag
           exact hnc tas htas ta hin hst q hq1 hq2 hq3
         have hent := process_full_entries P hP cfg g f' s.now hinv.clock cur tomb hnc'
         have hb : (Auth.full == Auth.revOnly) = false := by decide
@@ -1012,5 +1154,34 @@ example : (runHist {} [kA] {} [.run (some { keys := [kA, kP], signers := [kA] })
     .run (some { keys := [kA, kP], signers := [kA] }) {} none]).proc = some [kA, kP] := by decide
 example : (runHistG {} [kA] ({}, Ghost.init) [.run (some { keys := [kA, kP], signers := [kA] }) {} none,
     .tick (31 * 86400), .run (some { keys := [kA, kP], signers := [kA] }) {} none]).2.earned kP = true := by decide
+
+-- consumed_key_is_covered / the seeded scenario: the genuine root DNSKEY RRset signed by kA plus an
+-- unsigned KSK under another owner name: not accepted, so a no-op (and so for 30 days)
+example : verifyFetched [kA] { keys := [kA], signers := [kA], extras := [{ keys := [{ kP with owner := 1 }] }] } = .none := by
+  decide
+example : (runHist {} [kA] {} [
+    .run (some { keys := [kA], signers := [kA], extras := [{ keys := [{ kP with owner := 1 }] }] }) {} none,
+    .tick (31 * 86400),
+    .run (some { keys := [kA], signers := [kA], extras := [{ keys := [{ kP with owner := 1 }] }] }) {} none]).proc
+    = some [kA] := by decide
+-- ... accepted only when the extra RRset is signed by an anchor too
+example : verifyFetched [kA] { keys := [kA], signers := [kA], extras := [{ keys := [], signers := [kA] }] } = .full := by
+  decide
+example : ∃ e ∈ [({ keys := [{ kP with owner := 1 }], signers := [kA] } : Extra)],
+    ({ kP with owner := 1 } : Key) ∈ e.keys ∧ ∃ a, Anchoring [kA]
+      { keys := [kA], signers := [kA], extras := [{ keys := [{ kP with owner := 1 }], signers := [kA] }] } a ∧
+      signedBy e.signers a = true :=
+  (consumed_key_is_covered [kA]
+    { keys := [kA], signers := [kA], extras := [{ keys := [{ kP with owner := 1 }], signers := [kA] }] }
+    (by decide) { kP with owner := 1 } (by decide)).resolve_left (fun h => absurd h.1 (by decide))
+
+-- validation: the live set {kB} validates a set signed by kB, not one signed by the revoked kA alone;
+-- a cleared set validates nothing
+example : validates [kB] { keys := [kA, kB], signers := [kB] } = true := by decide
+example : validates [kB] { keys := [kA, kB], signers := [kA] } = false := by decide
+example : validates [] { keys := [kA, kB], signers := [kA, kB] } = false := validation_fails_closed _
+-- prefetch_publication: fail-closed mode (live = []) publishes nothing before the fetch
+example : (autoTA {} [kA, kB] {} [] (some revokeA) {} 0).pre = some [] := by decide
+example : (autoTA {} [kA, kB] { tomb := .ok [1] } [kA, kB] none {} 0).pre = some [kB] := by decide
 
 end SdnsVerif.Props.C09
